@@ -76,6 +76,32 @@ class Scratch:
                "--exclude", "/target", "--exclude", "/.git", "--exclude", "*.orig", "--exclude", "*.rej",
                REPO + "/", self.path + "/"]
         subprocess.run(cmd, check=True)
+        self._touch_changed()
+
+    def _touch_changed(self):
+        """cargo decides freshness by mtime. rsync preserves /repo's mtimes, so a file edited BEFORE an earlier build
+        of this scratch path finished would look older than that build and be skipped. Compare content hashes with
+        the previous run of this property and give every changed source file the current time."""
+        man_path = os.path.join(self.base, "hashes.json")
+        try:
+            old = json.load(open(man_path))
+        except Exception:
+            old = {}
+        new = {}
+        now = time.time()
+        for dp, dns, fns in os.walk(self.path):
+            dns[:] = [d for d in dns if d not in ("target", ".git", "data", "tests_data")]
+            for fn in fns:
+                if not fn.endswith((".rs", ".toml", ".lock", ".met")):
+                    continue
+                p = os.path.join(dp, fn)
+                rel = os.path.relpath(p, self.path)
+                with open(p, "rb") as f:
+                    h = hashlib.sha256(f.read()).hexdigest()
+                new[rel] = h
+                if rel in old and old[rel] != h:
+                    os.utime(p, (now, now))
+        write_json(man_path, new)
 
     def file(self, rel):
         return os.path.join(self.path, rel)
